@@ -104,7 +104,8 @@ def gen_softmax_kw(cfg, rs, allow_temperature=True):
     n = 1 if rs.chance(0.65) else rs.randint(2, len(opts))
     for o in rs.sample(opts, n):
         if o == 'temperature':
-            kw[o] = rs.choice([0.05, 20.0]) if rs.chance(0.2) else round(rs.loguniform(0.05, 20.0), 4)
+            kw[o] = rs.choice([0.05, 20.0]) if rs.chance(0.2) else \
+                (rs.choice([1, 2, 5, 10, 20]) if rs.chance(0.15) else round(rs.loguniform(0.05, 20.0), 4))
         else:
             kw[o] = rs.chance(0.5)
     return kw
